@@ -9,6 +9,7 @@ pub mod c06;
 pub mod c07;
 pub mod c08;
 pub mod c10;
+pub mod c12;
 pub mod c15;
 
 pub fn dispatch(prop: &str, cfg: &Cfg) -> Option<(Log, Meta)> {
@@ -20,6 +21,7 @@ pub fn dispatch(prop: &str, cfg: &Cfg) -> Option<(Log, Meta)> {
     "C06" => c06::run(cfg),
     "C07" => c07::run(cfg),
     "C08" => c08::run(cfg),
+    "C12" => c12::run(cfg),
     "C15" => c15::run(cfg),
     _ => return None,
   })
